@@ -21,6 +21,7 @@ import (
 	"github.com/attestantio/vouch/services/submitter/multinode"
 	"github.com/attestantio/vouch/util"
 	"github.com/attestantio/vouch/verifmc/mc"
+	"github.com/attestantio/vouch/verifmc/mcontext"
 	"github.com/attestantio/vouch/verifmc/msync"
 	"github.com/attestantio/vouch/verifmc/mtime"
 	"github.com/prysmaticlabs/go-bitfield"
@@ -614,6 +615,71 @@ func c08Units(tier string) []hx.Unit {
 				v.Violation, v.Key = st.scDesc+": panic: "+firstLine(r.Panic), "C08/scatter/panic"
 			} else if !st.done || !st.scOK {
 				v.Violation, v.Key = st.scDesc+": extents do not cover the input exactly once", "C08/scatter/partition"
+			}
+			return v
+		}
+		units = append(units, u)
+	}
+	// the caller gives up: its context is cancelled half a second or one and a half seconds into the submission
+	// (two nodes, accepting or rejecting, answering at once / after 1, 2, 3 s / never).  The call still returns no
+	// later than the timeout, reports success only if a node accepted, and reports it if one had accepted before
+	// the caller gave up.
+	for ki := range kinds {
+		k := kinds[ki]
+		st := &c08State{}
+		var cancelAt int64
+		u := hx.Unit{Name: "C08/caller-cancels/" + k.name, Cfg: mc.Config{Deviation: true, Horizon: int64(30 * time.Second)}, Bound: 1}
+		if tier == "thorough" {
+			u.Bound = 2
+		}
+		u.Body = func() {
+			*st = c08State{}
+			for i := 0; i < 2; i++ {
+				st.nodes = append(st.nodes, &c08Node{idx: i, beh: c08Basic[mc.Choose(2)], lat: mc.Choose(len(c08Lats))})
+			}
+			st.size, st.conc = 1, 2
+			cancelAt = []int64{int64(500 * time.Millisecond), int64(1500 * time.Millisecond)}[mc.Choose(2)]
+			svc := multiSvcFor(st.nodes, st.conc, "")
+			ctx, cancel := mcontext.WithCancel(context.Background())
+			defer cancel()
+			t0 := mc.Now()
+			mc.Go(func() {
+				mc.Sleep(cancelAt)
+				cancel()
+			})
+			st.payload, st.err = k.multi(svc, ctx, st.size)
+			st.t1 = mc.Now() - t0
+			st.done = true
+		}
+		u.Check = func(r *mc.Result) mc.Verdict {
+			var d []string
+			accepted, acceptedEarly := false, false
+			for _, n := range st.nodes {
+				lat := "never"
+				if c08Lats[n.lat] >= 0 {
+					lat = fmt.Sprintf("%ds", c08Lats[n.lat])
+				}
+				d = append(d, n.beh.name+"@"+lat)
+				if n.beh.errText == "" && len(n.endAt) > 0 {
+					accepted = true
+					if n.endAt[0] < cancelAt && n.endAt[0] <= int64(c08Timeout) {
+						acceptedEarly = true
+					}
+				}
+			}
+			v := mc.Verdict{Outcome: fmt.Sprintf("caller-cancels err=%v accepted=%v", st.err != nil, accepted), Nontrivial: true,
+				Sample: fmt.Sprintf("%s to nodes [%s], caller gives up after %v: returned=%v after %v err=%v", k.name, strings.Join(d, " "), time.Duration(cancelAt), st.done, time.Duration(st.t1), st.err)}
+			switch {
+			case r.Panic != "":
+				v.Violation, v.Key = v.Sample+": panic: "+firstLine(r.Panic), "C08/"+k.name+"/panic"
+			case !st.done:
+				v.Violation, v.Key = v.Sample+": the submission never returned", "C08/"+k.name+"/never-returned"
+			case st.t1 > int64(c08Timeout):
+				v.Violation, v.Key = v.Sample+": returned after the timeout", "C08/"+k.name+"/late-return"
+			case st.err == nil && !accepted:
+				v.Violation, v.Key = v.Sample+": success reported although no node accepted", "C08/"+k.name+"/success-without-acceptance"
+			case st.err != nil && acceptedEarly:
+				v.Violation, v.Key = v.Sample+": failure reported although a node had accepted before the caller gave up", "C08/"+k.name+"/failure-despite-acceptance"
 			}
 			return v
 		}
